@@ -122,6 +122,18 @@ def obligations(index: Index):
                 ok, why = False, f"L{n.lineno}: index_base is added, not subtracted"
     add(q, "subscripts-read-relative-to-index_base", ok, why, fi.node.lineno if fi else None, missing=fi is None)
 
+    # subscripts are read as integers, never through floating point (exact for every int64 subscript)
+    q = IMP + "import_sparse_array"
+    fi = index.get(q)
+    bad = []
+    if fi is not None:
+        for n in ast.walk(fi.node):
+            if isinstance(n, ast.Call):
+                f = ast.unparse(n.func)
+                if f.split(".")[-1] in ("fromfile", "loadtxt", "genfromtxt", "fromstring", "import_array", "float", "float64"):
+                    bad.append(f"L{n.lineno}: `{f}` parses the coordinate block through floating point")
+    add(q, "subscripts-parsed-as-integers-not-floats", fi is not None and not bad, "; ".join(bad), fi.node.lineno if fi else None, missing=fi is None)
+
     for fn in ("import_data", "import_sparse_array"):
         q = IMP + fn
         fi = index.get(q)
